@@ -6,6 +6,13 @@ Import ListNotations.
 Require Import EmbossV.Bounds.Model EmbossV.View.Model.
 Open Scope Z_scope.
 
+(* nth_byte tests the bound on Z first (so that evaluation never builds a huge unary number); it is nth with default 0 *)
+Lemma nth_byte_nth bytes i : nth_byte bytes i = nth (Z.to_nat i) bytes 0.
+Proof.
+  unfold nth_byte. destruct (Z.of_nat (length bytes) <=? i) eqn:E; [|reflexivity].
+  symmetry. apply nth_overflow. apply Z.leb_le in E. lia.
+Qed.
+
 (* ---------- information order ---------- *)
 Definition mle {A} (a b : maybe A) : Prop := forall x, a = Some x -> b = Some x.
 
